@@ -6,6 +6,8 @@ import os, sys, subprocess, shutil, tempfile, json, glob, re
 from multiprocessing import Pool
 VERIF = '/verif'
 claimed = [c['property_id'] for c in json.load(open(VERIF + '/MANIFEST.json'))['checks']]
+if os.environ.get('VERIF_ONLY'):      # restrict the matrix to some checks (after a change to their rules only)
+    claimed = [c for c in claimed if c in os.environ['VERIF_ONLY'].split(',')]
 patches = [os.path.abspath(a) for a in sys.argv[1:]] or sorted(glob.glob(VERIF + '/benign/*.diff'))
 
 
